@@ -438,7 +438,11 @@ func directWrites(fn *ssa.Function) []writeEffect {
 			name := calleeName(x)
 			if mut, idx := knownMutator(name); mut {
 				if idx < len(cc.Args) {
-					out = append(out, writeEffect{in, cc.Args[idx], "sort", name})
+					kind := "sort"
+					if !strings.Contains(name, "ort") && name != "slices.Reverse" {
+						kind = "in-place " + name[strings.LastIndex(name, ".")+1:]
+					}
+					out = append(out, writeEffect{in, cc.Args[idx], kind, name})
 				}
 			}
 		}
@@ -489,7 +493,10 @@ func sameValue(a, b ssa.Value) bool {
 func knownMutator(name string) (bool, int) {
 	switch name {
 	case "sort.Strings", "sort.Ints", "sort.Float64s", "sort.Slice", "sort.SliceStable", "sort.Sort", "sort.Stable",
-		"slices.Sort", "slices.SortFunc", "slices.SortStableFunc", "slices.Reverse":
+		"slices.Sort", "slices.SortFunc", "slices.SortStableFunc", "slices.Reverse",
+		// these return the shortened / extended slice but move elements inside the argument's backing array
+		"slices.Compact", "slices.CompactFunc", "slices.Delete", "slices.DeleteFunc", "slices.Insert", "slices.Replace",
+		"maps.Copy", "maps.DeleteFunc", "maps.Insert":
 		return true, 0
 	case "encoding/json.Unmarshal":
 		return true, 1
